@@ -52,6 +52,21 @@ CLAIMED = {
   tech=TECH+"simulated stdin schedule x child-outcome history over xargs -I, history oracle against a reference substituter"),
 }
 
+XC = " The thorough tier ends with a binary cross-check: the first 400 comparable scenarios through the in-process seams and through the find/xargs executables built from /repo with the hooks feature off (real pipes, real children); a disagreement is exit 2."
+EXT = {
+ "C02": XC,
+ "C04": " A small slice runs real children, which must receive what the seam recorded and must not be able to read xargs' own input stream." + XC,
+ "C05": " Also: both -0 and -d C in either order (the one given last applies), delimited fields beyond the 8 KiB BufReader, unclosed quotes followed by kilobytes of text, and CR/VT/FF, which are compared across read plans only." + XC,
+ "C06": " One run in six is replace mode (-I {}) with templates of 1-6 placeholders and lines sized so that a substituted argument lands at the per-argument limit or the whole substituted command line at the kernel budget; one in forty exceeds the kernel's 6 MiB ceiling under a large or unlimited stack limit. Where the accounting says an argument cannot be passed but xargs passed it, a real execve of that command line decides.",
+ "C07": " A quarter of the runs use -H/-L/-follow; the starting point itself may be named by blanks only, contain a newline, a quote or be multi-byte." + XC,
+ "C08": " Also -mindepth/-maxdepth, starting points with directory components, a crowded directory below the top (several batches from inside one directory), and file names that are not valid UTF-8." + XC,
+ "C09": " Also file names that are not valid UTF-8, starting points with directory components, template arguments spelled like find's own options (-help, --version, -delete, ...); when no test precedes the action every entry of an independent reference walk must reach it." + XC,
+ "C10": " Also `( -delete ... -o -quit )` (the first failing removal ends the walk and must still give a non-zero status) and names that are not valid UTF-8. Diagnostics are counted, never matched by wording.",
+ "C15": " A fifth of the runs carry a second time test in the same expression (often on the same reference file). Every run also constructs the real StandardDependencies, lets the clock advance and requires now() to lie inside the construction interval and to be stable: 'now' is fixed when find starts.",
+ "C19": " Also replace mode, empty input (the single invocation's outcome is the status), a quote as the very last byte, and a decoy file named like the command in the current directory (a command that cannot be found stays 127)." + XC,
+ "C20": " Also -s that every line fits by 0-5 bytes (each line must still run), and a slice with real children, which must not be able to read xargs' own input stream." + XC,
+}
+
 NA = {
  "C01":"pure function of (expression, entry): no schedule, clock, fault or multi-party history to simulate",
  "C03":"visit order is a pure function of (tree, expression); nothing for a simulator to schedule or fail",
@@ -76,7 +91,7 @@ def main():
           "evidence_file": f"/verif/evidence/{pid}.json",
           "replay_cmd_template": f"./check {pid} --replay {{path}}",
           "engine": "fusim",
-          "level_claimed": {"category": "exploration", "text": c["text"], "design_ref": f"DESIGN.md section 4, {pid}"},
+          "level_claimed": {"category": "exploration", "text": c["text"] + EXT.get(pid, ""), "design_ref": f"DESIGN.md section 4, {pid}"},
           "level_note": c["note"],
           "technique": c["tech"],
         })
